@@ -294,6 +294,19 @@ struct StrPool {
         { std::ostringstream os; os << x; sink += os.str().size(); }
         sink += ST::hex_encode(x.to_utf8()).size() + ST::base64_encode(x.to_utf8()).size();
         for (auto it = x.begin(); it != x.end(); ++it) sink += (unsigned char)*it;
+        // the remaining public const members of ST::string (coq/Mem/ApiCoverage.v proves the list complete
+        // against the inventory harvested from the headers' AST)
+        sink += x.after_first('a').size() + x.after_last('a').size() + x.before_first('a').size() + x.before_last('a').size();
+        sink += (x.empty() ? 0 : (unsigned char)x.at(0)) + (unsigned char)x.back() + (unsigned char)x.front();
+        sink += size_t(x.c_str()[0]) + size_t(x.data()[0]) + size_t(x.u8_str()[0]);
+        sink += size_t(x.cend() - x.cbegin()) + size_t(x.crend() - x.crbegin()) + size_t(x.rend() - x.rbegin()) + size_t(x.end() - x.begin());
+        sink += x.compare_ni(x, 2) + x.right(2).size() + x.replace("a", "bb").size() + x.substr(1, 2).size() + x.to_lower().size();
+        sink += x.trim_left().size() + x.trim_right().size();
+        { ST::char_buffer b; x.to_buffer(b); sink += b.size(); ST::utf16_buffer u; x.to_buffer(u); sink += u.size(); }
+        sink += size_t(x.to_float()) + x.to_int64() + x.to_uint64() + x.to_long() + x.to_long_long() + x.to_short();
+        sink += x.to_ulong() + x.to_ulong_long() + x.to_ushort();
+        sink += x.to_std_u32string().size() + x.to_std_u8string().size() + x.to_std_wstring().size();
+        sink += x.to_path().native().size() + x.to_utf8().size();
         static volatile size_t g_sink; g_sink = sink;
     }
 
